@@ -104,12 +104,18 @@ def first_touch_cases(ctx, quick, lap):
         "LockedMapShards_cand.cfg (allocation discipline 'blind': inner map built outside the lock and stored without a second "
         "look at the slot - NOT the pinned code, which is 'locked'): %s is violated by two creating calls on keys of one empty "
         "slot; the schedules of this discipline are forced on the real maps (first-touch histories)" % r.violated]
-    scheds = []
     r = ctx.tlc("LockedMapShards", "LockedMapShards_sched_quick.cfg", timeout=3000)
     lap("sched_exhaustive")
     exh = sorted(set(SCHED.findall(r.out)))
     if len(exh) < 1000:
         raise core.MachineryError("LockedMapShards_sched_quick.cfg printed %d schedules: %s" % (len(exh), r.out[-1500:]))
+    exh3 = []
+    if not quick:
+        r = ctx.tlc("LockedMapShards", "LockedMapShards_sched_thorough.cfg", timeout=3000)
+        lap("sched_exhaustive3")
+        exh3 = sorted(set(SCHED.findall(r.out)))
+        if len(exh3) < 10000:
+            raise core.MachineryError("LockedMapShards_sched_thorough.cfg printed %d schedules: %s" % (len(exh3), r.out[-1500:]))
     n_sim = 300 if quick else 4000
     r = ctx.tlc("LockedMapShards", "LockedMapShards_sched_sim.cfg", workers=1, timeout=3000, count=False,
                 args=["-simulate", "num=%d" % n_sim, "-depth", 60, "-seed", ctx.seed])
@@ -122,7 +128,7 @@ def first_touch_cases(ctx, quick, lap):
         ctx.states += int(m[-1])
         ctx.transitions += int(m[-1])
     cases = []
-    for fam, lst in (("exhaustive", exh), ("sampled", sim)):
+    for fam, lst in (("exhaustive", exh), ("exhaustive3", exh3), ("sampled", sim)):
         for j, (layout, cmds) in enumerate(lst):
             cmds = cmds.split()
             # every schedule on one kind of map in quick (rotating with the seed), on all of them in thorough; sampled: one
@@ -130,7 +136,8 @@ def first_touch_cases(ctx, quick, lap):
                 if fam == "exhaustive" else [FT_KINDS[(j + ctx.seed) % len(FT_KINDS)]]
             for k in ks:
                 cases.append({"id": len(cases) + 1, "kind": k, "layout": layout, "cmds": cmds, "family": fam})
-    ctx.extra["first_touch_schedules"] = {"exhaustive_family": len(exh), "sampled_family": len(sim), "cases": len(cases)}
+    ctx.extra["first_touch_schedules"] = {"exhaustive_family": len(exh), "exhaustive_family_3_goroutines": len(exh3),
+                                          "sampled_family": len(sim), "cases": len(cases)}
     return cases
 
 
